@@ -230,6 +230,9 @@ namespace link_layer {
 
                 void reset_encryption()
                 {
+                    // a procedure that was not finished, does not survive the connection
+                    has_key_                    = false;
+                    encryption_in_progress_     = false;
                     start_encryption_requested_ = false;
                     that().connection_data_.is_encrypted( false );
                     that().stop_receive_encrypted();
